@@ -146,6 +146,18 @@ TrMerge ==
                IfBad(Ev.maps # MergedMaps(cs, Ds), <<"maps", Ev.maps>>)
                \cup IfBad(~Ev.exists \/ Ev.size # Ev.flen, <<"size", Ev.size, Ev.flen>>))
 
+\* random doc-value visits with one reused visit state (also across segments)
+TrDvWalk ==
+  /\ IsEv("dvwalk")
+  /\ UNCHANGED <<segs, files, lcm>>
+  /\ LET bad(v) == LET c   == segs[v.sid].c
+                       exp == UNION { { [f |-> f, t |-> t] : t \in DvOf(c, v.d, f) } : f \in RangeOf(Ev.fs) }
+                   IN  RangeOf(v.r) # exp \/ Len(v.r) # Cardinality(exp)
+         badOf(prov) == { <<"dv", v.sid, v.d>> : v \in { v \in RangeOf(Ev.visits) : segs[v.sid].c.prov = prov /\ bad(v) } }
+     IN  /\ l' = l + 1
+         /\ nbad' = nbad + Report("dvwalk-built", badOf("built") \cup IfBad(Ev.err # "", <<"err", "dv", Ev.err>>))
+                          + Report("dvwalk-merged", badOf("merged"))
+
 TrClose ==
   /\ IsEv("close")
   /\ Close(Ev.sid)
@@ -153,7 +165,7 @@ TrClose ==
 
 TrEnd == l = Len(Trace) + 1 /\ l' = l + 1 /\ PrintT(<<"ACCEPTED", Len(Trace), nbad>>) /\ UNCHANGED <<segs, files, lcm, nbad>>
 
-TraceNext == TrReset \/ TrBuild \/ TrBuildFail \/ TrPersist \/ TrOpen \/ TrMerge \/ TrClose \/ TrEnd
+TraceNext == TrDvWalk \/ TrReset \/ TrBuild \/ TrBuildFail \/ TrPersist \/ TrOpen \/ TrMerge \/ TrClose \/ TrEnd
 
 TraceSpec == TraceInit /\ [][TraceNext]_traceVars
 
